@@ -333,6 +333,13 @@ func (f *Frame) probeAt(name, cond string) {
 func (f *Frame) frameObligations(spec *FuncSpec, entry, final *State, reach string, goals map[string][]string) {
 	vc := f.vc
 	env := f.baseEnv(entry)
+	base := env.lookup
+	env.lookup = func(name string) (TV, bool) {
+		if tv, ok := base(name); ok {
+			return tv, true
+		}
+		return f.freeVar(name, entry)
+	}
 	targets := f.resolveModifies(spec.Modifies, env)
 	byKey := map[string][]modTarget{}
 	for _, t := range targets {
